@@ -75,9 +75,24 @@ class Conc:
             return None
         return VALUES[t]
 
+    def render_value(self, tok):
+        v = self.val(tok, allow_null=False)
+        if v["k"] == "unk": return "?"
+        if v["k"] == "na": return "."
+        if v["k"] == "numb": return v["t"]
+        if v["k"] == "char": return "'%s'" % v["t"] if v.get("q", 1) else v["t"]
+        raise Infra("value token %s cannot be rendered in a document" % tok)
+
     def cmd(self, e):
         """specification log entry -> cifrun command"""
         op = e["op"]
+        if op == "parse_into":
+            text = "#\\#CIF_2.0\n"
+            for b in e["blocks"]:
+                text += "data_%s\n" % self.code(b["code"])
+                for n, v in b["items"]:
+                    text += "%s %s\n" % (self.name(n), self.render_value(v))
+            return {"op": "parse", "cif": e["cif"], "text": text, "errors": "accept"}
         c = {"op": op}
         for k in ("cif", "cont", "loop", "h"):
             if k in e:
@@ -116,7 +131,11 @@ class Conc:
                 d.append((lvl, "%s: rc %s, specification predicts %s" % (op, rc, e["rc"])))
         if e.get("rc", 0) not in (0, 44) and o.get("rc") not in (0, 44):
             return d
-        if op in ("get_all_blocks", "get_all_frames"):
+        if op == "parse_into":
+            got = [x.get("code") for x in o.get("log", []) if x.get("cb") == "error"]
+            if got != list(e["errs"]):
+                d.append((2, "parse_into: error codes %s, expected %s" % (got, list(e["errs"]))))
+        elif op in ("get_all_blocks", "get_all_frames"):
             got, exp = sorted(o.get("codes", [])), sorted(self.code(x) for x in e["codes"])
             if got != exp:
                 d.append((2, "%s: codes %s, expected %s" % (op, got, exp)))
